@@ -12,7 +12,7 @@ header region (64 KiB) and of the metadata region buffered so far.
 """
 from pyvc.api import (proof, load, invariant, fresh_int, fresh_bytes, pick,
                       assume, check, implies, conj, disj, neg, le, byte_at,
-                      forall_int, stub)
+                      forall_int, stub, cover)
 
 FI = 'oslo_utils/imageutils/format_inspector.py'
 H = 196608
@@ -29,6 +29,71 @@ def guid_at(B, off, g):
     return conj([le(B, off, 4) == g[0], le(B, off + 4, 2) == g[1],
                  le(B, off + 6, 2) == g[2]]
                 + [byte_at(B, off + 8 + t) == g[3][t] for t in range(8)])
+
+
+REGI = 0x69676572
+
+
+def exists_int(lo, hi, fn):
+    return neg(forall_int(lo, hi, lambda j: neg(fn(j))))
+
+
+def region_walk_post(D, b, kind, off=None, length=None):
+    """The outcome of _find_meta_region as a function of the complete region
+    table, the 64 KiB at D[b:b+65536]: kind is 'raises', 'none' or 'region'.
+    The same function states the obligation on the real finder (below, with
+    D the header region's data and b == 0) and the assumption made about it
+    where eat_chunk is verified against the finder's contract (vhdx_step,
+    with D the stream and b == H)."""
+    count = le(D, b + 8, 4)
+    bad = disj(le(D, b, 4) != REGI, count >= 2048)
+
+    def is_meta(j):
+        return guid_at(D, b + 16 + 32 * j, META)
+
+    def moff(j):
+        return le(D, b + 32 + 32 * j, 8)
+
+    def first(j):
+        return conj(is_meta(j), forall_int(0, j, lambda q: neg(is_meta(q))))
+    if kind == 'raises':
+        return disj(bad, exists_int(0, count, lambda j: conj(
+            first(j), moff(j) < HEND)))
+    if kind == 'none':
+        return conj(neg(bad), forall_int(0, count,
+                                         lambda j: neg(is_meta(j))))
+    return conj(neg(bad), off >= HEND, length == 65536,
+                exists_int(0, count, lambda j: conj(first(j),
+                                                    off == moff(j))))
+
+
+def entry_walk_post(T, b, n, kind, ioff=None, ilen=None):
+    """The outcome of _find_meta_entry(VIRTUAL_DISK_SIZE) as a function of
+    the n bytes T[b:b+n] of the metadata region buffered so far.  ioff is
+    the item offset relative to the metadata region, ilen the clamped item
+    length."""
+    count = le(T, b + 10, 2)
+    size = 32 + 32 * count
+
+    def is_vds(j):
+        return guid_at(T, b + 32 + 32 * j, VDS)
+
+    def first(j):
+        return conj(is_vds(j), forall_int(0, j, lambda q: neg(is_vds(q))))
+    sig_ok = conj([byte_at(T, b + t) == b'metadata'[t] for t in range(8)])
+    if kind == 'raises':
+        return conj(n >= 32, disj(neg(sig_ok), conj(
+            n >= size, exists_int(0, count, lambda j: conj(
+                first(j), le(T, b + 32 + 32 * j + 16, 4) < size)))))
+    if kind == 'none':
+        return disj(n < 32, conj(sig_ok, disj(n < size, forall_int(
+            0, count, lambda j: neg(is_vds(j))))))
+    return conj(n >= size, sig_ok, ioff >= size, ilen >= 0, ilen <= 65536,
+                exists_int(0, count, lambda j: conj(
+                    first(j), ioff == le(T, b + 32 + 32 * j + 16, 4),
+                    disj(ilen == le(T, b + 32 + 32 * j + 20, 4),
+                         conj(ilen == 65536,
+                              le(T, b + 32 + 32 * j + 20, 4) > 65536)))))
 
 
 @proof(['C07', 'C01'], targets=[(FI, 'VHDXInspector._guid')])
@@ -71,6 +136,11 @@ def find_meta_region_contract():
     except M.ImageFormatError as e:
         raised = e
     bad_header = disj(le(D, 0, 4) != 0x69676572, count >= 2048)
+    check('meta-region/outcome-is-the-specified-function-of-the-table',
+          region_walk_post(D, 0, 'raises' if raised is not None else
+                           'none' if r is None else 'region',
+                           None if r is None else r.offset,
+                           None if r is None else r.length))
     if raised is not None:
         # either the header is bad or the first matching entry points
         # behind the end of the region table
@@ -123,6 +193,11 @@ def find_meta_entry_contract():
         r = insp._find_meta_entry(M.VHDXInspector.VIRTUAL_DISK_SIZE)
     except M.ImageFormatError as e:
         raised = e
+    check('meta-entry/outcome-is-the-specified-function-of-the-buffer',
+          entry_walk_post(T, 0, n, 'raises' if raised is not None else
+                          'none' if r is None else 'region',
+                          None if r is None else r.offset - m,
+                          None if r is None else r.length))
     if n < 32:
         check('meta-entry/waits-for-the-32-byte-header',
               raised is None and r is None)
@@ -254,7 +329,283 @@ def post_process_and_virtual_size():
           'C01')
 
 
+# ---------------------------------------------------------------------------
+# class-level induction: the relation R_VHDX(insp, S, q) and its step
+
+
+def put_in_R(M, S, q, shape, tag=''):
+    """A VHDXInspector forced into an arbitrary state satisfying
+    R_VHDX(S, q) with the given region table shape; the dynamic regions are
+    located by the two finder contracts applied to the stream."""
+    insp = M.VHDXInspector()
+    insp._total_count = q
+    insp.region('ident').data = S[0:min(q, 32)]
+    insp.region('header').data = S[H:min(q, HEND)]
+    if shape == 'ident+header':
+        if q >= HEND:
+            assume(region_walk_post(S, H, 'none'))
+        return insp
+    assume(q >= HEND)
+    m = fresh_int('metadata_offset' + tag, 0)
+    assume(region_walk_post(S, H, 'region', m, 65536))
+    md = M.CaptureRegion(m, 65536)
+    insp.new_region('metadata', md)
+    if shape == 'ident+header+metadata':
+        md.data = S[m:min(q, m + 65536)]
+        assume(entry_walk_post(S, m, len(md.data), 'none'))
+        return insp
+    L = fresh_int('metadata_closed_at' + tag, 32, 65536)
+    assume(m + L <= q)
+    md.length = L
+    md.data = S[m:m + L]
+    ioff = fresh_int('item_offset' + tag, 0)
+    ilen = fresh_int('item_length' + tag, 0, 65536)
+    assume(entry_walk_post(S, m, L, 'region', ioff, ilen))
+    vds = M.CaptureRegion(m + ioff, ilen)
+    vds.data = S[m + ioff:min(q, m + ioff + ilen)]
+    insp.new_region('vds', vds)
+    return insp
+
+
+def check_R(insp, S, q, tag):
+    names = list(insp._capture_regions.keys())
+    check(tag + '/position', insp._total_count == q)
+    check(tag + '/region-table-shape',
+          names == ['ident', 'header']
+          or names == ['ident', 'header', 'metadata']
+          or names == ['ident', 'header', 'metadata', 'vds'])
+    idt = insp.region('ident')
+    hdr = insp.region('header')
+    check(tag + '/fixed-regions',
+          idt.offset == 0 and idt.length == 32 and idt.min_length is None
+          and hdr.offset == H and hdr.length == 65536
+          and hdr.min_length is None)
+    check(tag + '/fixed-regions-in-sync',
+          idt.data == S[0:min(q, 32)] and hdr.data == S[H:min(q, HEND)])
+    check(tag + '/not-finished', insp._finished == False)  # noqa
+    total = 32 + 65536
+    if names == ['ident', 'header']:
+        if q >= HEND:
+            check(tag + '/no-metadata-region-only-if-the-table-names-none',
+                  region_walk_post(S, H, 'none'))
+    else:
+        md = insp.region('metadata')
+        m = md.offset
+        check(tag + '/metadata-only-after-the-table', q >= HEND)
+        check(tag + '/metadata-where-the-table-says',
+              region_walk_post(S, H, 'region', m, 65536)
+              and md.min_length is None)
+        total = total + 65536
+        if names == ['ident', 'header', 'metadata']:
+            check(tag + '/metadata-open-and-in-sync',
+                  md.length == 65536 and md.data == S[m:min(q, m + 65536)])
+            check(tag + '/no-vds-region-only-if-the-buffer-names-none',
+                  entry_walk_post(S, m, len(md.data), 'none'))
+        else:
+            vds = insp.region('vds')
+            L = md.length
+            check(tag + '/metadata-closed-at-what-was-buffered',
+                  32 <= L and L <= 65536 and m + L <= q
+                  and md.data == S[m:m + L])
+            check(tag + '/vds-where-the-metadata-table-says',
+                  entry_walk_post(S, m, L, 'region', vds.offset - m,
+                                  vds.length) and vds.min_length is None)
+            check(tag + '/vds-in-sync',
+                  vds.data == S[vds.offset:min(q, vds.offset + vds.length)])
+            total = total + 65536
+    check(tag + '/memory-bound', total <= 512 * 1024
+          and sum(insp.context_info.values()) <= total, 'C05')
+
+
+def finder_contracts(M, S):
+    """eat_chunk is verified against the contracts of the two finders (proved
+    above on their real bodies): each call checks the callee's precondition
+    and assumes exactly its postcondition on a fresh outcome."""
+    def fmr(self):
+        hdr = self.region('header')
+        check('step/region-walk-called-on-the-complete-table',
+              hdr.data == S[H:HEND])
+        kind = pick('region_walk_outcome', ['raises', 'none', 'region'])
+        if kind == 'raises':
+            assume(region_walk_post(S, H, 'raises'))
+            raise M.ImageFormatError('region table')
+        if kind == 'none':
+            assume(region_walk_post(S, H, 'none'))
+            return None
+        off = fresh_int('found_metadata_offset', 0)
+        assume(region_walk_post(S, H, 'region', off, 65536))
+        return M.CaptureRegion(off, 65536)
+
+    def fme(self, guid):
+        md = self.region('metadata')
+        n = len(md.data)
+        check('step/entry-walk-called-for-the-vds-guid-on-a-synced-buffer',
+              guid == '2FA54224-CD1B-4876-B211-5DBED83BF4B8'
+              and md.length == 65536 and n <= 65536
+              and md.data == S[md.offset:md.offset + n])
+        kind = pick('entry_walk_outcome', ['raises', 'none', 'region'])
+        if kind == 'raises':
+            assume(entry_walk_post(S, md.offset, n, 'raises'))
+            raise M.ImageFormatError('metadata table')
+        if kind == 'none':
+            assume(entry_walk_post(S, md.offset, n, 'none'))
+            return None
+        ioff = fresh_int('found_item_offset', 0)
+        ilen = fresh_int('found_item_length', 0, 65536)
+        assume(entry_walk_post(S, md.offset, n, 'region', ioff, ilen))
+        md.length = n
+        return M.CaptureRegion(md.offset + ioff, ilen)
+    stub(M, 'VHDXInspector._find_meta_region', fmr)
+    stub(M, 'VHDXInspector._find_meta_entry', fme)
+
+
+@proof(['C01', 'C05', 'C07'],
+       targets=[(FI, 'FileInspector.eat_chunk'),
+                (FI, 'FileInspector._capture'),
+                (FI, 'CaptureRegion.capture'),
+                (FI, 'VHDXInspector.post_process'),
+                (FI, 'VHDXInspector._initialize')], native=False,
+       assumes=['_find_meta_region / _find_meta_entry are used through '
+                'their contracts region_walk_post / entry_walk_post, which '
+                'find_meta_region_contract / find_meta_entry_contract '
+                'discharge on the real bodies'])
+def vhdx_step():
+    """R_VHDX(S, p0) and chunk == S[p0:p]  ==>  the real eat_chunk(chunk)
+    either re-establishes R_VHDX(S, p) or raises ImageFormatError exactly
+    when one of the two tables, as found in S[:p], is one the finders
+    reject.  p0, p, the region offsets and lengths are symbolic."""
+    M = load(FI)
+    S = fresh_bytes('S')
+    p0 = fresh_int('p0', 0, len(S))
+    p = fresh_int('p', p0, len(S))
+    fresh = M.VHDXInspector()
+    check_R(fresh, S, 0, 'init')
+    shape = pick('regions', ['ident+header', 'ident+header+metadata',
+                             'ident+header+metadata+vds'])
+    insp = put_in_R(M, S, p0, shape)
+    finder_contracts(M, S)
+    raised = None
+    try:
+        insp.eat_chunk(S[p0:p])
+    except M.ImageFormatError as e:
+        raised = e
+    names = list(insp._capture_regions.keys())
+    if shape == 'ident+header' and len(names) == 4 and raised is None:
+        cover('step/table-metadata-and-item-all-arrive-in-one-chunk')
+    if shape == 'ident+header' and len(names) == 3 and raised is not None:
+        cover('step/metadata-table-rejected-in-the-chunk-that-located-it')
+    if shape == 'ident+header+metadata' and len(names) == 3 \
+            and raised is None:
+        cover('step/open-metadata-region-stays-open')
+    if shape == 'ident+header+metadata+vds' and raised is None:
+        cover('step/located-state-is-stable')
+    if raised is None:
+        check_R(insp, S, p, 'step')
+        return
+    # the error is a function of the stream prefix
+    check('step-error/only-once-the-table-is-in', p >= HEND)
+    if names == ['ident', 'header']:
+        check('step-error/region-table-rejected',
+              region_walk_post(S, H, 'raises'))
+    else:
+        md = insp.region('metadata')
+        check('step-error/metadata-table-rejected',
+              names == ['ident', 'header', 'metadata']
+              and region_walk_post(S, H, 'region', md.offset, 65536)
+              and md.data == S[md.offset:min(p, md.offset + 65536)]
+              and entry_walk_post(S, md.offset, len(md.data), 'raises'))
+
+
+@proof(['C01', 'C07'],
+       targets=[(FI, 'VHDXInspector.virtual_size'),
+                (FI, 'VHDXInspector.format_match'),
+                (FI, 'FileInspector.complete')], native=False)
+def vhdx_state_is_a_function_of_the_stream():
+    """Any two inspectors in R_VHDX(S, q) - however their chunkings got them
+    there (init + vhdx_step) - have the same region table and the same
+    observable verdict; only the length at which the metadata buffer was
+    closed may differ.  This is the chunk-independence of C01 for VHDX."""
+    M = load(FI)
+    S = fresh_bytes('S')
+    q = fresh_int('q', 0, len(S))
+    shapes = ['ident+header', 'ident+header+metadata',
+              'ident+header+metadata+vds']
+    sa = pick('first', shapes)
+    sb = pick('second', shapes)
+    a = put_in_R(M, S, q, sa, '_a')
+    b = put_in_R(M, S, q, sb, '_b')
+    if sa != sb:
+        check('unique/region-table-shape-is-determined-by-the-prefix', False)
+        return
+    if sa != 'ident+header':
+        check('unique/metadata-offset',
+              a.region('metadata').offset == b.region('metadata').offset)
+    if sa == 'ident+header+metadata+vds':
+        va = a.region('vds')
+        vb = b.region('vds')
+        check('unique/vds-region', va.offset == vb.offset
+              and va.length == vb.length and va.data == vb.data)
+        if va.length == 8:
+            check('unique/virtual-size', a.virtual_size == b.virtual_size)
+            if va.complete:
+                check('unique/virtual-size-is-the-u64-the-tables-point-to',
+                      a.virtual_size == le(S, va.offset, 8), 'C07')
+    else:
+        check('unique/virtual-size-unknown',
+              a.virtual_size == 0 and b.virtual_size == 0)
+    check('unique/complete', a.complete == b.complete)
+    check('unique/format-match', a.format_match == b.format_match
+          and a.format_match == (q >= 8 and S[0:8] == b'vhdxfile'))
+    cover('unique/reached')
+
+
+@proof(['C01'], targets=[(FI, 'VHDXInspector.post_process')], native=False)
+def vhdx_error_is_monotone_in_the_prefix():
+    """vhdx_step: a call ending at p raises exactly when the tables found in
+    S[:p] are rejected.  Rejection is monotone in p, so every chunking of a
+    stream raises by the same position (in a different call)."""
+    S = fresh_bytes('S')
+    m = fresh_int('metadata_offset', 0)
+    n0 = fresh_int('buffered', 0, 65536)
+    n1 = fresh_int('buffered_later', n0, 65536)
+    assume(entry_walk_post(S, m, n0, 'raises'))
+    check('error/metadata-rejection-persists',
+          entry_walk_post(S, m, n1, 'raises'))
+    check('error/rejected-buffer-is-never-accepted',
+          neg(entry_walk_post(S, m, n1, 'none')))
+    ioff = fresh_int('item_offset', 0)
+    ilen = fresh_int('item_length', 0, 65536)
+    check('error/rejected-buffer-never-yields-a-region',
+          neg(entry_walk_post(S, m, n1, 'region', ioff, ilen)))
+    check('error/region-table-outcomes-exclude-each-other',
+          neg(conj(region_walk_post(S, H, 'raises'),
+                   disj(region_walk_post(S, H, 'none'),
+                        region_walk_post(S, H, 'region', m, 65536)))))
+
+
 CANARIES = [
+    dict(name='eat-chunk-single-post-process-pass', prop='C01', file=FI,
+         proofs=['vhdx_step'],
+         old="""            self._capture(chunk, only=[self.region_name(r)
+                                       for r in new_regions])
+            seen_regions = regions
+""",
+         new="""            self._capture(chunk, only=[self.region_name(r)
+                                       for r in new_regions])
+            seen_regions = regions
+            break
+""", expect='step/'),
+    dict(name='new-regions-do-not-see-the-current-chunk', prop='C01', file=FI,
+         proofs=['vhdx_step'],
+         old="""            self._capture(chunk, only=[self.region_name(r)
+                                       for r in new_regions])""",
+         new="""            pass""", expect='step/'),
+    dict(name='post-process-walks-before-the-table-is-complete', prop='C01',
+         file=FI, proofs=['vhdx_step'],
+         old="        if self.region('header').complete and not self.has_region('metadata'):",
+         new="        if self.region('header').data and not self.has_region('metadata'):",
+         expect='step/region-walk-called'),
+
     dict(name='region-walk-skips-entry-0', prop='C07', file=FI,
          proofs=['find_meta_region_contract'],
          old='        for i in range(0, count):\n            entry_start = region_entry_first + (i * 32)',
@@ -268,12 +619,12 @@ CANARIES = [
     dict(name='metadata-capture-one-entry-short', prop='C07', file=FI,
          proofs=['find_meta_region_contract'],
          old='                meta_len = 2048 * 32', new='                meta_len = 2047 * 32',
-         expect='meta-region/is-a-fresh'),
+         expect='meta-region/'),
     dict(name='metadata-capture-length-from-file', prop='C05', file=FI,
          proofs=['find_meta_region_contract'],
          old='                meta_len = 2048 * 32',
          new='                meta_len = max(meta_len, 2048 * 32)',
-         expect='meta-region/is-a-fresh'),
+         expect='meta-region/'),
     dict(name='item-length-signed', prop='C05', file=FI,
          proofs=['find_meta_entry_contract'],
          old="                    '<III',\n                    meta_buffer[entry_offset + 16:entry_offset + 28])",
